@@ -9,7 +9,17 @@
 (* end pair, and `corrupt` records that a mutation overlapped another mutation   *)
 (* or a scan.                                                                    *)
 (* Named deviation "unsync_set": the set is an unsynchronised HashSet behind an  *)
-(* UnsafeCell, so operations of different threads may overlap (code as it is).   *)
+(* UnsafeCell, so operations of different threads may overlap (the code before   *)
+(* 1ae0855).                                                                     *)
+(* A coroutine that returns from a system call goes back to Running on its own   *)
+(* stack, and its listener runs the set operation (and the notify of the         *)
+(* monitor's blocker, another lock) there.  A signal is delivered at any         *)
+(* instruction: named deviation "handler_preempts_in_monitor" = the handler      *)
+(* suspends such a coroutine while it holds the lock; the next coroutine of the  *)
+(* thread then waits for a lock that only a coroutine waiting behind it can      *)
+(* release (the code before the repair; found by TLC, reproduced with signals at *)
+(* the monitor's rate).  Intended: the handler leaves a thread alone that is     *)
+(* inside a monitor operation; the monitor tries again a millisecond later.      *)
 EXTENDS Naturals, Sequences, FiniteSets, TLC
 
 CONSTANTS Threads, MaxT, Slice, Deviations
@@ -21,12 +31,14 @@ VARIABLES now,
           node,      \* [Threads -> deadline of the thread's node in the set, 0 if none]
           inop,      \* [Threads \cup {0} -> "none" | "mut" | "scan"]  operation on the set in progress
           sig,       \* set of threads with a SIGURG pending
+          onco,      \* threads whose operation in progress runs on the coroutine's own stack
+          stuck,     \* a coroutine was suspended while it held the set's lock
           corrupt, sysPreempted
-vars == <<now, st, since, node, inop, sig, corrupt, sysPreempted>>
+vars == <<now, st, since, node, inop, sig, onco, stuck, corrupt, sysPreempted>>
 Actors == Threads \cup {0}
 
 Init == /\ now = 0 /\ st = [t \in Threads |-> "idle"] /\ since = [t \in Threads |-> 0] /\ node = [t \in Threads |-> 0]
-        /\ inop = [a \in Actors |-> "none"] /\ sig = {} /\ corrupt = FALSE /\ sysPreempted = FALSE
+        /\ inop = [a \in Actors |-> "none"] /\ sig = {} /\ onco = {} /\ stuck = FALSE /\ corrupt = FALSE /\ sysPreempted = FALSE
 
 OthersBusy(a) == \E b \in Actors \ {a} : inop[b] # "none"
 OthersMutating(a) == \E b \in Actors \ {a} : inop[b] = "mut"
@@ -38,23 +50,34 @@ Start(t) == /\ st[t] \in {"idle", "preempted"} /\ inop[t] = "none" /\ CanBegin(t
             /\ st' = [st EXCEPT ![t] = "running"] /\ since' = [since EXCEPT ![t] = now]
             /\ inop' = [inop EXCEPT ![t] = "mut"] /\ node' = [node EXCEPT ![t] = now + Slice]
             /\ corrupt' = (corrupt \/ OthersBusy(t))
-            /\ UNCHANGED <<now, sig, sysPreempted>>
-EndOp(a) == /\ inop[a] # "none" /\ inop' = [inop EXCEPT ![a] = "none"]
-            /\ UNCHANGED <<now, st, since, node, sig, corrupt, sysPreempted>>
+            /\ UNCHANGED <<now, sig, onco, stuck, sysPreempted>>
+EndOp(a) == /\ inop[a] # "none" /\ ~(stuck /\ a \in onco) /\ inop' = [inop EXCEPT ![a] = "none"] /\ onco' = onco \ {a}
+            /\ UNCHANGED <<now, st, since, node, sig, stuck, corrupt, sysPreempted>>
 \* the coroutine enters a system call / finishes: remove the node
 Leave(t, to) == /\ st[t] = "running" /\ inop[t] = "none" /\ CanBegin(t)
                 /\ st' = [st EXCEPT ![t] = to] /\ node' = [node EXCEPT ![t] = 0]
                 /\ inop' = [inop EXCEPT ![t] = "mut"] /\ corrupt' = (corrupt \/ OthersBusy(t))
-                /\ UNCHANGED <<now, since, sig, sysPreempted>>
-SysReturn(t) == /\ st[t] = "syscall" /\ st' = [st EXCEPT ![t] = "idle"]
-                /\ UNCHANGED <<now, since, node, inop, sig, corrupt, sysPreempted>>
+                /\ UNCHANGED <<now, since, sig, onco, stuck, sysPreempted>>
+\* the system call is over: back to Running on the coroutine's own stack, the listener submits a new node
+SysReturn(t) == /\ st[t] = "syscall" /\ inop[t] = "none" /\ CanBegin(t)
+                /\ st' = [st EXCEPT ![t] = "running"] /\ since' = [since EXCEPT ![t] = now]
+                /\ inop' = [inop EXCEPT ![t] = "mut"] /\ node' = [node EXCEPT ![t] = now + Slice]
+                /\ onco' = onco \cup {t} /\ corrupt' = (corrupt \/ OthersBusy(t))
+                /\ UNCHANGED <<now, sig, stuck, sysPreempted>>
 \* monitor: scan the set and signal the expired nodes
 Scan == /\ inop[0] = "none" /\ CanBegin(0)
         /\ inop' = [inop EXCEPT ![0] = "scan"]
         /\ corrupt' = (corrupt \/ OthersMutating(0))
         /\ sig' = sig \cup {t \in Threads : node[t] # 0 /\ now >= node[t]}
-        /\ UNCHANGED <<now, st, since, node, sysPreempted>>
+        /\ UNCHANGED <<now, st, since, node, onco, stuck, sysPreempted>>
 \* signal delivery: the handler suspends only a Running coroutine
+\* a signal that arrives while the thread itself is inside a set operation on a coroutine's stack
+DeliverInside(t) ==
+  /\ t \in sig /\ inop[t] = "mut" /\ t \in onco /\ st[t] = "running" /\ sig' = sig \ {t}
+  /\ IF "handler_preempts_in_monitor" \in Deviations
+     THEN /\ stuck' = TRUE /\ st' = [st EXCEPT ![t] = "preempted"]
+     ELSE UNCHANGED <<stuck, st>>          \* left alone; the monitor signals again at its next scan
+  /\ UNCHANGED <<now, since, node, inop, onco, corrupt, sysPreempted>>
 Deliver(t) == /\ t \in sig /\ inop[t] = "none"
               /\ (st[t] = "running" => CanBegin(t))          \* the handler waits for the set's lock
               /\ sig' = sig \ {t}
@@ -63,22 +86,24 @@ Deliver(t) == /\ t \in sig /\ inop[t] = "none"
                       /\ inop' = [inop EXCEPT ![t] = "mut"] /\ corrupt' = (corrupt \/ OthersBusy(t))
                       /\ UNCHANGED sysPreempted
                  ELSE UNCHANGED <<st, node, inop, corrupt, sysPreempted>>
-              /\ UNCHANGED <<now, since>>
+              /\ UNCHANGED <<now, since, onco, stuck>>
 Tick == /\ now < MaxT /\ now' = now + 1
         \* operations on the set and signal delivery are short compared with a tick, and the monitor
         \* scans at least once per tick: time only advances when nothing of that is outstanding
         /\ \A a \in Actors : inop[a] = "none"
         /\ sig = {}
         /\ \A t \in Threads : (node[t] # 0 /\ now >= node[t]) => st[t] # "running"
-        /\ UNCHANGED <<st, since, node, inop, sig, corrupt, sysPreempted>>
+        /\ UNCHANGED <<st, since, node, inop, sig, onco, stuck, corrupt, sysPreempted>>
 
-Next == \/ \E t \in Threads : Start(t) \/ Leave(t, "syscall") \/ Leave(t, "done") \/ SysReturn(t) \/ Deliver(t)
+Next == \/ \E t \in Threads : Start(t) \/ Leave(t, "syscall") \/ Leave(t, "done") \/ SysReturn(t) \/ Deliver(t) \/ DeliverInside(t)
         \/ \E a \in Actors : EndOp(a)
         \/ Scan \/ Tick
 Spec == Init /\ [][Next]_vars
 
 \* C22: safe with many scheduling threads
 NotCorrupt == ~corrupt
+\* C22 "stays safe": nobody is ever suspended while it holds the lock of the notify set
+NoSelfDeadlock == ~stuck
 \* C22: a coroutine in a system-call state is never preempted
 SyscallNeverPreempted == ~sysPreempted /\ \A t \in Threads : st[t] = "syscall" => node[t] = 0
 \* C22: nobody keeps running for more than a slice plus two monitor periods without a signal on its way
